@@ -632,7 +632,18 @@ fn judge_bin(run: &Run, sizes: &[usize], cap: usize, len: usize, what: &str, cx:
     }
 }
 
-const DEFAULT_CAP: usize = 32 * 1024;
+/// the readers' DEFAULT buffer capacity, MEASURED from the library (`TokenReader::new(..).into_parts()` hands the
+/// buffer back) rather than assumed: changing the default is a harmless change and must not raise an alarm
+fn default_cap() -> usize {
+    use std::sync::OnceLock;
+    static CAP: OnceLock<usize> = OnceLock::new();
+    *CAP.get_or_init(|| {
+        let t = jomini::text::TokenReader::new(&b""[..]).into_parts().0.len();
+        let b = jomini::binary::TokenReader::new(&b""[..]).into_parts().0.len();
+        assert_eq!(t, b, "text and binary readers have different default buffer sizes: the scale grids assume one");
+        t
+    })
+}
 
 /// x-scale tread <shape> <n> [<m>]
 fn op_tread(w: &[&str], cx: &mut Cx) -> Option<String> {
@@ -652,7 +663,7 @@ fn op_tread(w: &[&str], cx: &mut Cx) -> Option<String> {
         judge_text(&run, &sizes, usize::MAX, d.len(), &format!("{} slice reader", what), cx);
         let extra: Vec<usize> = if layout == 0 { vec![16, 64, 255, 256, 4096, longest.max(14), longest + 1, longest + 2] } else { vec![64, longest + 2] };
         for (cap, sched) in reader_configs(&extra) {
-            let c = cap.unwrap_or(DEFAULT_CAP);
+            let c = cap.unwrap_or(default_cap());
             let rd = SchedReader::new(&d, sched.clone());
             let mut r = match cap { Some(c) => TextReader::builder().buffer_len(c).build(rd), None => TextReader::new(rd) };
             let run = drain_text(&mut r, &exp, 0);
@@ -701,7 +712,7 @@ fn op_bread(w: &[&str], cx: &mut Cx) -> Option<String> {
     let mut runs = 0;
     let extra = [8usize, 16, 64, 255, 256, 4096, longest - 1, longest, longest + 1, 65535 + 4];
     for (cap, sched) in reader_configs(&extra) {
-        let c = cap.unwrap_or(DEFAULT_CAP);
+        let c = cap.unwrap_or(default_cap());
         if c < 2 { continue; }
         let rd = SchedReader::new(&d, sched.clone());
         let mut r = match cap { Some(c) => BinReader::builder().buffer_len(c).build(rd), None => BinReader::new(rd) };
@@ -747,7 +758,7 @@ fn op_tskip(w: &[&str], cx: &mut Cx) -> Option<String> {
             let mut configs: Vec<(Option<usize>, Vec<Step>)> = vec![(Some(0), vec![])];   // Some(0) = slice reader
             configs.extend(reader_configs(&[need.max(16), need.max(64), need.max(4096)]));
             for (cap, sched) in configs {
-                if let Some(c) = cap { if c != 0 && c < need { continue; } } else if DEFAULT_CAP < need { continue; }
+                if let Some(c) = cap { if c != 0 && c < need { continue; } } else if default_cap() < need { continue; }
                 let what = format!("text {} n={} m={} layout {} skip at token {} {}", w[2], n, m, layout, open, if cap == Some(0) { "slice reader".to_string() } else { show_cfg(cap, &sched) });
                 macro_rules! go { ($r:expr) => {{
                     let mut r = $r;
@@ -820,7 +831,7 @@ fn op_bskip(w: &[&str], cx: &mut Cx) -> Option<String> {
         let mut configs: Vec<(Option<usize>, Vec<Step>)> = vec![(Some(0), vec![])];
         configs.extend(reader_configs(&[longest.max(16), longest.max(64), longest.max(4096), longest + 1]));
         for (cap, sched) in configs {
-            if let Some(c) = cap { if c != 0 && c < longest { continue; } } else if DEFAULT_CAP < longest { continue; }
+            if let Some(c) = cap { if c != 0 && c < longest { continue; } } else if default_cap() < longest { continue; }
             let what = format!("binary {} n={} m={} skip at token {} {}", w[2], n, m, open, if cap == Some(0) { "slice reader".to_string() } else { show_cfg(cap, &sched) });
             macro_rules! go { ($r:expr) => {{
                 let mut r = $r;
@@ -965,7 +976,7 @@ impl<'c, 'a, 'b, T: Debug + PartialEq> Paths<'c, 'a, 'b, T> {
 
 /// text caps: (cap, schedule); `need` = longest token payload
 fn text_de_cfgs(need: usize) -> Vec<(usize, Vec<Step>)> {
-    vec![(DEFAULT_CAP, vec![]), (DEFAULT_CAP, vec![Step::Repeat(32769)]), ((need + 2).max(70000), vec![]), ((need + 2).max(4096), vec![Step::Repeat(7)]), ((need + 2).max(64), vec![Step::Repeat(1)]),
+    vec![(default_cap(), vec![]), (default_cap(), vec![Step::Repeat(32769)]), ((need + 2).max(70000), vec![]), ((need + 2).max(4096), vec![Step::Repeat(7)]), ((need + 2).max(64), vec![Step::Repeat(1)]),
          ((need + 2).max(32768), vec![Step::Repeat(32768)]), (need.max(16) - 1, vec![Step::Repeat(4096)])]
 }
 fn text_paths<T: DeserializeOwned + Debug + PartialEq>(d: &[u8], exp: &T, need: usize, what: String, cx: &mut Cx) -> usize {
@@ -974,9 +985,9 @@ fn text_paths<T: DeserializeOwned + Debug + PartialEq>(d: &[u8], exp: &T, need: 
     p.path("from_utf8_slice", jomini::text::de::from_utf8_slice::<T>(d), None);
     p.path("tape(windows1252)", TextTape::from_slice(d).and_then(|t| TextDeserializer::from_windows1252_tape(&t).deserialize::<T>()), None);
     p.path("tape(utf8)", TextTape::from_slice(d).and_then(|t| TextDeserializer::from_utf8_tape(&t).deserialize::<T>()), None);
-    if need + 2 <= DEFAULT_CAP || need >= DEFAULT_CAP {
-        p.path("from_windows1252_reader", jomini::text::de::from_windows1252_reader::<T, _>(d), Some(need + 2 <= DEFAULT_CAP));
-        p.path("from_utf8_reader", jomini::text::de::from_utf8_reader::<T, _>(d), Some(need + 2 <= DEFAULT_CAP));
+    if need + 2 <= default_cap() || need >= default_cap() {
+        p.path("from_windows1252_reader", jomini::text::de::from_windows1252_reader::<T, _>(d), Some(need + 2 <= default_cap()));
+        p.path("from_utf8_reader", jomini::text::de::from_utf8_reader::<T, _>(d), Some(need + 2 <= default_cap()));
     }
     for (cap, sched) in text_de_cfgs(need) {
         // cap in (need, need+2) is the undecided band: skip it
@@ -996,7 +1007,7 @@ fn bin_builder() -> jomini::binary::de::BinaryDeserializerBuilder<super::c05::Fl
 }
 /// `need` = encoded size of the largest token
 fn bin_de_cfgs(need: usize) -> Vec<(usize, Vec<Step>)> {
-    vec![(DEFAULT_CAP, vec![]), (DEFAULT_CAP, vec![Step::Repeat(32769)]), (need.max(70000), vec![]), (need.max(4096), vec![Step::Repeat(7)]), (need.max(64), vec![Step::Repeat(1)]),
+    vec![(default_cap(), vec![]), (default_cap(), vec![Step::Repeat(32769)]), (need.max(70000), vec![]), (need.max(4096), vec![Step::Repeat(7)]), (need.max(64), vec![Step::Repeat(1)]),
          (need.max(32768), vec![Step::Repeat(32768)]), (need.max(16) - 1, vec![Step::Repeat(4096)]), (need.max(16), vec![Step::Repeat(4096)])]
 }
 fn bin_paths<T: DeserializeOwned + Debug + PartialEq>(d: &[u8], exp: &T, need: usize, what: String, cx: &mut Cx) -> usize {
@@ -1004,7 +1015,7 @@ fn bin_paths<T: DeserializeOwned + Debug + PartialEq>(d: &[u8], exp: &T, need: u
     let mut p = Paths { cx, what, exp, n: 0 };
     p.path("tape", BinaryTape::from_slice(d).and_then(|t| bin_builder().from_tape(&t, res).deserialize::<T>()), None);
     p.path("from_slice", bin_builder().from_slice(d, res).deserialize::<T>(), None);
-    p.path("from_reader(default)", bin_builder().from_reader(d, res).deserialize::<T>(), Some(need <= DEFAULT_CAP));
+    p.path("from_reader(default)", bin_builder().from_reader(d, res).deserialize::<T>(), Some(need <= default_cap()));
     for (cap, sched) in bin_de_cfgs(need) {
         let name = format!("from_reader {}", show_cfg(Some(cap), &sched));
         let mut b = bin_builder();
@@ -1024,7 +1035,7 @@ fn seed_paths(depth: usize, dt: Option<&[u8]>, db: Option<&[u8]>, what: &str, cx
         chk("text from_windows1252_slice", TextDeserializer::from_windows1252_slice(d).and_then(|de| TopNest(depth).deserialize(&de)), cx);
         chk("text from_utf8_slice", TextDeserializer::from_utf8_slice(d).and_then(|de| TopNest(depth).deserialize(&de)), cx);
         chk("text tape", TextTape::from_slice(d).and_then(|t| TopNest(depth).deserialize(&TextDeserializer::from_windows1252_tape(&t))), cx);
-        for (cap, sched) in [(DEFAULT_CAP, vec![]), (64, vec![Step::Repeat(1)]), (4096, vec![Step::Repeat(7)])] {
+        for (cap, sched) in [(default_cap(), vec![]), (64, vec![Step::Repeat(1)]), (4096, vec![Step::Repeat(7)])] {
             let mut de = TextDeserializer::from_windows1252_reader(TextReader::builder().buffer_len(cap).build(SchedReader::new(d, sched.clone())));
             chk(&format!("text windows1252 reader {}", show_cfg(Some(cap), &sched)), TopNest(depth).deserialize(&mut de), cx);
             let mut de = TextDeserializer::from_utf8_reader(TextReader::builder().buffer_len(cap).build(SchedReader::new(d, sched.clone())));
@@ -1035,7 +1046,7 @@ fn seed_paths(depth: usize, dt: Option<&[u8]>, db: Option<&[u8]>, what: &str, cx
         let res = resolver();
         chk("binary tape", BinaryTape::from_slice(d).and_then(|t| TopNest(depth).deserialize(&bin_builder().from_tape(&t, res))), cx);
         chk("binary from_slice", TopNest(depth).deserialize(&mut bin_builder().from_slice(d, res)), cx);
-        for (cap, sched) in [(DEFAULT_CAP, vec![]), (16, vec![Step::Repeat(1)]), (4096, vec![Step::Repeat(7)])] {
+        for (cap, sched) in [(default_cap(), vec![]), (16, vec![Step::Repeat(1)]), (4096, vec![Step::Repeat(7)])] {
             let mut b = bin_builder();
             b.reader_config(BinReader::builder().buffer_len(cap));
             chk(&format!("binary from_reader {}", show_cfg(Some(cap), &sched)), TopNest(depth).deserialize(&mut b.from_reader(SchedReader::new(d, sched.clone()), res)), cx);
@@ -1923,6 +1934,17 @@ pub fn gen_for(prop: &str, g: &mut Gen) {
     // the streaming reader rescans a carried-over comment after every refill (quadratic under one-byte reads): the longest
     // comments are left to the thorough tier
     let cgaps: Vec<usize> = if more { GAPS.to_vec() } else { vec![15, 255, 4096, 32767, 32768, 40000] };
+    // the grids below cross 32 KiB because that is the readers' default buffer TODAY; if the default changes, cross the
+    // new one as well
+    let dc = default_cap();
+    if dc != 32 * 1024 && dc >= 64 && dc <= (1 << 20) {
+        match prop {
+            "C07" | "C20" | "C05" => { for n in [dc - 2, dc - 1, dc, dc + 1] { for s in ["long-u", "long-q", "blank", "comment"] { e(g, format!("tread {} {}", s, n)); } } }
+            "C08" => { for n in [dc - 6, dc - 5, dc - 4, dc - 3] { if n <= 65535 { for s in ["long-q", "long-u"] { e(g, format!("bread {} {}", s, n)); } } } }
+            "C09" => { for n in [dc - 1, dc, dc + 1] { for p in ["sp", "mix"] { e(g, format!("tskipu {} {}", p, n)); } } }
+            _ => {}
+        }
+    }
     match prop {
         "C01" | "C06" => {
             grid(g, "ttape", &["fields", "qfields", "wide-u"], &counts);
